@@ -1033,7 +1033,7 @@ fn formula_strategy() -> impl Strategy<Value = F> {
 }
 
 pub fn run_all(ctx: &mut Ctx, replay: Option<&Path>) {
-    ctx.rule("five generators: grid (LessThanN over iterations/evaluations/an f64 state incl. the progress value; EveryN; OptimumReached around the epsilon boundary incl. absent best) — non-trivial = boundary/above-n/multiple/epsilon-edge cases; iteration-bounded loops n in 0..40 (plain, in a scope, two in sequence) — non-trivial n >= 2; ChangeOf value histories with PartialEq and Delta checkers over i64 and SingleObjective values against a `last reported value` model — non-trivial = history returns to an earlier value; RandomChance frequency over N seeded draws within 6 sigma — non-trivial = p in (0,1); Boolean formulas over scripted, tracing operands built by constructors, by & | ! and cloned, with one injected operand error — non-trivial = depth >= 2 mixing operators; distinct by case");
+    ctx.rule("five generators: grid (LessThanN over iterations/evaluations/an f64 state/a user-defined 64-bit counter whose conversion to f64 is lossy - bound and value up to 300 apart around 0, 2^53, 2^62 and u64::MAX - incl. the progress value; EveryN; OptimumReached around the epsilon boundary incl. absent best) — non-trivial = boundary/above-n/multiple/epsilon-edge cases; iteration-bounded loops n in 0..40 (plain, in a scope, two in sequence) — non-trivial n >= 2; ChangeOf value histories with PartialEq and Delta checkers over i64 and SingleObjective values against a `last reported value` model, the i64 histories also as the condition `ChangeOf & iterations < len` of a real loop whose body installs the next value (passes = leading reported changes; the loop initialises its condition once) — non-trivial = history returns to an earlier value; RandomChance frequency over N seeded draws within 6 sigma — non-trivial = p in (0,1); Boolean formulas over scripted, tracing operands built by constructors, by & | ! and cloned, with one injected operand error — non-trivial = depth >= 2 mixing operators; distinct by case");
     ctx.assume("EveryN(0) is outside the domain (division by zero is not specified)");
     ctx.assume("RandomChance: 6-sigma band on a fixed sample size; smaller deviations are invisible");
     let g = GridCheck;
